@@ -54,7 +54,7 @@ Print Assumptions addroutes_shape.
 
 (* (T) no path prefix is dispatched around the mux except those named by the finding C19-debug-public while it is open *)
 Theorem no_prefix_bypass : unexempt_prefixes open_findings prefixes = [].
-Proof. exact no_prefix_bypass_check. Qed.
+Proof. exact no_prefix_skips_the_mux_check. Qed.
 Print Assumptions no_prefix_bypass.
 
 Theorem no_prefix_bypass_forall : forall guards path p, dispatch guards prefixes path = Some p ->
